@@ -126,7 +126,7 @@ def run(tier, seed):
             ("tut13x2", rj, 300), ("tut1x1", rj, 150), ("guix2", rj, 150), ("tut13x3", rj, 150)]
     if not quick:
         # generated suites (random setup DAGs, vf/parse/gensuite.py)
-        plan += [("gen:%d:%d" % (seed + 601 + i, 2 + i % 2), None, 120) for i in range(6)]
+        plan += [("gen:%d:%d" % (seed + 601 + i, 2 + i % 2), None, 150) for i in range(3)]
     return D.generic_run(PID, tier, seed, plan, make_jobs, signature, describe, explore_plan=D.explore_plan(tier, ['NoC10'], retries=True), settings_of=settings_of, post=post,
                          rule="randomized outcome sequences over 7 reportable statuses x max_tries {0,1,2,3} x rerun/stop subsets x initial pools; "
                               "invalid settings (-1, x, unknown status names) must raise; TLC validates tries rule, uid freshness, own results, verdict; "
